@@ -130,7 +130,20 @@ def gen_matrix(spec: dict) -> torch.Tensor:
     m, n = spec["m"], spec["n"]
     kind = spec.get("kind", "gauss")
     dt = torch.float64
-    if kind == "outliers":
+    if kind == "longrow":
+        # two short conflicting rows u + p v, u - q v and long rows L u roughly aligned with their sum: from the mean, the steepest
+        # vertex of Frank-Wolfe is a short row with |g_t|^2 <= <g_alpha, g_t> (step size 1) that is NOT the min-norm point
+        u = torch.randn(n, generator=g, dtype=dt)
+        u = u / u.norm()
+        v = torch.randn(n, generator=g, dtype=dt)
+        v = v - (v @ u) * u
+        v = v / v.norm()
+        r = lambda a, b: float(torch.rand(1, generator=g, dtype=dt)) * (b - a) + a  # noqa: E731
+        rows = [u + r(2.0, 4.0) * v, u - r(0.7, 1.3) * v]
+        for _ in range(2, m):
+            rows.append(r(5.0, 10.0) * u + r(-0.2, 0.2) * v)
+        M = torch.stack(rows)[torch.randperm(m, generator=g)]
+    elif kind == "outliers":
         # ordinary rows + `b` rows of huge positive and `b` rows of huge negative entries that partly cancel (Byzantine rows):
         # arithmetic that lets the trimmed entries take part (column sum minus extremes, ...) absorbs the kept values differently
         # in every row order
